@@ -95,6 +95,7 @@ AllowedKeys(idx, d, o) ==
   CASE o.f = "_range" -> {BucketOf(idx, d, o.buckets)}
     [] o.f = "_drange" -> {BucketOfIn(idx, d, o.buckets, "whenv")}
     [] o.f = "_query" -> LET ks == QueryKeys(idx, d, o.qs) IN IF ks = {} THEN {0} ELSE ks
+    [] o.f = "_multi1" -> GroupKeys(idx, d, "multi", TRUE)
     [] OTHER -> GroupKeys(idx, d, o.f, o.overlap)
 GroupsOK(idx, m, o) ==
   LET S == DOMAIN m
@@ -103,7 +104,7 @@ GroupsOK(idx, m, o) ==
   IN /\ Cardinality(ToSet(got)) = Len(got)
      /\ \A i \in DOMAIN o.groups : /\ ToSet(o.groups[i][2]) \subseteq S /\ o.groups[i][2] # <<>>
                                    /\ Cardinality(ToSet(o.groups[i][2])) = Len(o.groups[i][2])
-     /\ \A d \in S : IF o.overlap \/ o.f # "_query" THEN under(d) = AllowedKeys(idx, d, o)
+     /\ \A d \in S : IF o.overlap \/ o.f \notin {"_query", "_multi1"} THEN under(d) = AllowedKeys(idx, d, o)
                      ELSE Cardinality(under(d)) = 1 /\ under(d) \subseteq AllowedKeys(idx, d, o)
 
 \* collapse: walk the ranking, keep at most n documents per key; documents without a key are never collapsed
@@ -119,7 +120,9 @@ CollapseSeq(idx, rank, f, n, i, shared) ==
                                                     /\ keyof(prev[j]) = keyof(d)})
        IN IF (shared \/ HasVal(idx, d, f)) /\ same >= n THEN prev ELSE Append(prev, d)
 \* the ranking that is collapsed: by score, or by the requested field (driver: every document has it)
-CollapseRank(idx, m, o) == IF o.sort = <<>> THEN Rank(m) ELSE SortSpec(idx, m, DOMAIN m, o.sort)
+\* (search(reverse=True) turns the whole ranking round; the best of a key are then the first in that direction)
+CollapseRank(idx, m, o) == LET r == IF o.sort = <<>> THEN Rank(m) ELSE SortSpec(idx, m, DOMAIN m, o.sort)
+                           IN IF "grev" \in DOMAIN o /\ o.grev THEN Rev(r) ELSE r
 \* with a collapse order (driver: every document has the order key) the n best of a key are the first n of
 \* its documents in that order (document order on ties); the ranking itself is not reordered
 CollapseKept(idx, m, o) ==
@@ -214,7 +217,7 @@ Expected(idx, m, q, o) ==
                                    spec == SortSpec(idx, m, full, o.keys)
                                IN IF o.grev THEN Rev(spec) ELSE spec,
                              matched |-> Cardinality(DOMAIN m)]
-    [] o.kind = "groups" -> IF o.f \in {"_range", "_query", "_drange"}
+    [] o.kind = "groups" -> IF o.f \in {"_range", "_query", "_drange", "_multi1"}
                             THEN [allowed_keys |-> [d \in DOMAIN m |-> AllowedKeys(idx, d, o)]]
                             ELSE [groups |-> GroupsSpec(idx, DOMAIN m, o.f, o.overlap)]
     [] o.kind = "collapse" -> LET rk == CollapseRank(idx, m, o) IN
